@@ -178,6 +178,23 @@ def extract(tree):
         raise ExtractError("boot.janet polymorphic chains changed: %s" % chains)
     g["polyChains"] = [("compare<", "<"), ("compare<=", "<="), ("compare=", "="), ("compare>", ">"), ("compare>=", ">=")]
     g["polyChains"] = [c for c in g["polyChains"] if c in chains]
+    # the numeric predicates built on compare: (defn NAME "doc" [x] (= (compare x K) R))  /  (defn NAME "doc" [x] (= 0 (compare P (mod x M))))
+    # (the *last* definition of a name counts: boot.janet defines a bootstrap `odd?` early and the polymorphic one later)
+    preds = {}
+    for m in re.finditer(r"\(defn\s+(zero\?|pos\?|neg\?|one\?|even\?|odd\?)\s+(?:\"[^\"]*\"\s+)?\[(\w+)\]\s*(\((?:[^()]|\((?:[^()]|\([^()]*\))*\))*\))\s*\)", boot):
+        name, var, body = m.group(1), m.group(2), _jnorm(m.group(3))
+        m1 = re.fullmatch(r"\(= \(compare %s (-?\d+)\) (-?\d+)\)" % re.escape(var), body)
+        m2 = re.fullmatch(r"\(= 0 \(compare (-?\d+) \(mod %s (-?\d+)\)\)\)" % re.escape(var), body)
+        if m1:
+            preds[name] = ("cmp", int(m1.group(1)), int(m1.group(2)))
+        elif m2:
+            preds[name] = ("parity", int(m2.group(1)), int(m2.group(2)))
+        else:
+            preds[name] = ("other", 0, 0)
+    for nm in ("zero?", "pos?", "neg?", "one?", "even?", "odd?"):
+        if preds.get(nm, ("other",))[0] == "other":
+            raise ExtractError("boot.janet %s: definition not of the shape (= (compare x K) R) / (= 0 (compare P (mod x M))): %s" % (nm, preds.get(nm)))
+    g["polyPreds"] = [(nm,) + preds[nm] for nm in ("zero?", "pos?", "neg?", "one?", "even?", "odd?")]
 
     # ---- hand-written floor division / modulo ----------------------------------------------------------
     for fn in ("divf", "divfi", "mod", "modi"):
@@ -504,6 +521,9 @@ def render(tree):
     o.append("")
     o.append("/-- boot.janet: `(defn compare<op> [& xs] (compare-reduce <op> xs))` (the bodies of do-compare / compare-reduce are shape-asserted) -/")
     o.append("def polyChains : List (String × String) := [%s]\n" % ", ".join("(%s, %s)" % (_s(a), _s(b)) for a, b in g["polyChains"]))
+    o.append("/-- boot.janet numeric predicates: (name, shape, a, b): cmp = `(= (compare x a) b)`, parity = `(= 0 (compare a (mod x b)))` -/")
+    o.append("def polyPreds : List (String × String × Int × Int) := [%s]\n" %
+             ", ".join("(%s, %s, %s, %s)" % (_s(n), _s(k), "(%d)" % a if a < 0 else a, "(%d)" % b if b < 0 else b) for n, k, a, b in g["polyPreds"]))
     o.append("/-- argv index of (op1 = dividend, op2 = divisor) in the hand-written methods -/")
     for fn in ("divf", "divfi", "mod", "modi"):
         o.append("abbrev %sArgs : Nat × Nat := (%d, %d)" % (fn, g[fn + "Args"][0], g[fn + "Args"][1]))
